@@ -461,6 +461,15 @@ _amend("C14", "rule", "Non-trivial", "Half of the handlers keep using the metada
 _amend("C18", "rule", "Non-trivial", "One HTTP request in eight carries a message that reads fine but does not decode (the k-th of the body): no InPayload for a message nobody received. Non-trivial")
 _amend("C19", "rule", "Non-trivial", "In one healthz case of eight the health service lives on a backend reached through RegisterConn (discovered by reflection) instead of on the mux. Non-trivial")
 
+# round 14
+_amend("C02", "rule", "Non-trivial", "Every third request is preceded by one the mux has to refuse (a path beyond the token limit or with a character outside the documented set): earlier traffic says nothing about the next request. Non-trivial")
+_amend("C04", "rule", "Non-trivial", "A third of the routes reply with, or select through response_body, a well-known type whose JSON form is not an object (Timestamp, Duration, FieldMask, wrappers; often zero-valued). Non-trivial")
+_amend("C07", "rule", "Non-trivial", "A third of the WebSocket cases use a bidi method whose handler speaks first (a greeting before its first receive). Non-trivial")
+_amend("C10", "rule", "Non-trivial", "The HTTP front delivers its request body in 1-5 reads of drawn sizes, in a third of the cases as (length-delimited) protobuf, and like the gRPC front under an 8 s call deadline (a call still running then is the violation proxied-call-hangs). Non-trivial")
+_amend("C15", "rule", "Non-trivial", "A unary method whose handler holds the call without touching the response (point unary-idle), reached by a plain or a gzip-compressed chunked request whose terminating chunk arrives 60 ms after its last data chunk. Non-trivial")
+_amend("C16", "rule", "Non-trivial", "The nested additional binding sits at any position among 2-4 siblings (valid siblings may follow it). Non-trivial")
+_amend("C18", "rule", "Non-trivial", "One handler in six uses the header API again after its headers went out (SetHeader after SendHeader / after its first reply) and returns the refusal: the same with every option subset. Non-trivial")
+
 # native coverage-guided fuzzing of the same generators (thorough tier only)
 for _k, _t in (("C01", "FuzzRoute"), ("C03", "FuzzTranscode"), ("C16", "FuzzRegister"), ("C17", "FuzzCodec")):
     PROPS[_k]["fuzz"] = {"target": _t, "seconds": 120}
